@@ -284,9 +284,9 @@ type reqState struct {
 	mu    sync.Mutex
 	calls []int
 	obs   []obsEv
-	sync  func() // called before every placeholder access of a handler
+	sync  func()          // called before every placeholder access of a handler
 	ctx   context.Context // the batch context the handlers were given (last invocation)
-	bad   string // harness-level inconsistency (never expected)
+	bad   string          // harness-level inconsistency (never expected)
 }
 
 type connKey struct{}
